@@ -8,5 +8,5 @@ python3 tools/extract_tables.py
 # every proof module up front, so that a check only re-checks what changed since
 (cd lean && lake build $(ls SaphyrVerif/Props/*.lean | sed 's#/#.#g; s#\.lean$##'))
 [ -f harness/Cargo.lock ] || cp /repo/Cargo.lock harness/Cargo.lock
-(cd harness && cargo build --release --offline)
+(cd harness && cargo build --release --offline && cargo build --release --offline --no-default-features --target-dir target-plain)
 echo setup-ok
